@@ -35,6 +35,14 @@ def cache_writes(F, ev, body, roles):
         if fs and fs[0].get("owner") == ADT_PROBLEM and fs[0]["name"] == roles["cache"]:
             if len(fs) == 1 and not any(e["k"] == "downcast" for e in p["proj"]):
                 kind, v = cache_write_kind(ev, env, s, (bi, si))
+                if kind == "other" and v[0] == "phi" and all(a[0] == "opt" or is_absent_value(a) for a in v[1]):
+                    # the value of a helper returning Option (early `?` returns and one Some(..)): one sink per alternative
+                    if any(is_absent_value(a) for a in v[1]):
+                        out.append((bi, si, "none", ("none",), s))
+                    for a in v[1]:
+                        if a[0] == "opt":
+                            out.append((bi, si, "some", a, s))
+                    continue
             else:
                 kind, v = "partial", None
             out.append((bi, si, kind, v, s))
